@@ -21,6 +21,7 @@ func main() {
 	for _, c := range cases {
 		if len(c.Inputs) > 8 {
 			c.Inputs = c.Inputs[:8]
+			c.HostWant = nil // the generator's reference was computed for all the inputs
 		}
 		r := run.Run(c)
 		runs += len(r.Got)
@@ -30,6 +31,9 @@ func main() {
 		}
 		if r.Hang {
 			fmt.Println("MISMATCH: runs hang:", c.JSON())
+		}
+		if i := r.HostPanic(); i >= 0 {
+			fmt.Printf("MISMATCH: run %d panics into the host: %s case %s\n", i, r.Got[i], c.JSON())
 		}
 		if r.HostBad != "" {
 			fmt.Println("MISMATCH:", r.HostBad, c.JSON())
